@@ -111,25 +111,7 @@ def run(ctx):
              f"an event with no nominee runs on into the transition machinery (notifications, settle, history)",
              offenders[0] if offenders else sel[0])
     # ---- R3 stale-source skip --------------------------------------------------
-    for v in VIEWS:
-        r = roles(ctx, v)
-        pe = r.process_event
-        calls = [s for s in res.callsites(pe, v) if any(t.qualname == r.dispatch.qualname for t in s.targets)]
-        c.expect("R3", f"dispatch call in {pe.short}", len(calls), 1, pe, f"{pe.short} no longer hands the selected transitions to {r.dispatch.short}: nominated transitions do not fire")
-        for s in calls:
-            ok = False
-            for a, pol in guards_at(pe, s.call):
-                for x in ast.walk(a):
-                    cp = compare_parts(x)
-                    if cp and isinstance(cp[0], ast.Attribute) and cp[0].attr == "source" and \
-                            isinstance(cp[2], ast.Attribute) and cp[2].attr == CONFIG_ATTR:
-                        # whole atom false + 'not in'  ==  executed only when not (… and stale)
-                        if (isinstance(cp[1], ast.NotIn) and not pol) or (isinstance(cp[1], ast.In) and pol):
-                            ok = True
-            c.ob("R3", ok, pe, "stale-source-skip",
-                 "each selected transition is executed only if its source is still active (or it is the only one)" if ok else
-                 "the per-transition executor call is not dominated by the stale-source test: a transition whose source "
-                 "was exited by an earlier winner of the same step still fires", s.call)
+    shared.stale_source_skip(ctx, "R3")
     # ---- R4 one selection implementation ---------------------------------------
     base = p.cls("BaseInterpreter")
     for name in ("_select_transitions", "_collect_eligible_transitions", "_is_guard_satisfied",
